@@ -296,6 +296,11 @@ CREATE OR REPLACE MACRO vtl_tp_shift(p vtl_time_period, n INTEGER) AS (
         WHEN 'A' THEN
             vtl_period_to_string({'year': p.year + n,
                 'period_indicator': 'A', 'period_number': 1}::vtl_time_period)
+        -- Weeks and days per year vary (52/53 ISO weeks, 365/366 days): shift on the calendar.
+        WHEN 'W' THEN
+            vtl_time_agg_date(vtl_tp_start_date(p) + INTERVAL (n * 7) DAY, 'W')
+        WHEN 'D' THEN
+            vtl_time_agg_date(vtl_tp_start_date(p) + INTERVAL (n) DAY, 'D')
         ELSE
             vtl_period_to_string({
                 'year': p.year + CASE
